@@ -18,6 +18,10 @@ import (
 
 var vhReps = []string{"", "*", "+", "?", "!"}
 
+// literal texts as Parser.String() prints them (%q): plain, ending in an
+// escaped backslash, holding an escaped quote, control and non-ASCII bytes
+var vhLiterals = []string{`"lit"`, `"\\"`, `"\""`, `"a\\"`, `"\n"`, `"\\\""`, `"é"`, `"\x00"`, `"|"`}
+
 // vhLeaf is a term without a group; simple leaves have no modifier.
 func vhLeaf(simple bool) *Term {
 	t := &Term{Negation: vBool("negation")}
@@ -95,6 +99,30 @@ func VH_C14_TreeRoundTrip() {
 	vReach("round-trip")
 }
 
+// VH_C14_Literals: two or three literal terms (sequence or alternatives) with
+// texts that need escaping, printed and parsed back.
+func VH_C14_Literals() {
+	lit := func() *Term {
+		return &Term{Negation: vBool("negation"), Literal: vhLiterals[vChoose("literal", len(vhLiterals))]}
+	}
+	a, b, c := lit(), lit(), lit()
+	var e *Expression
+	switch vChoose("shape", 3) {
+	case 0:
+		e = &Expression{Alternatives: []*Sequence{{Terms: []*Term{a, b}}}}
+	case 1:
+		e = &Expression{Alternatives: []*Sequence{{Terms: []*Term{a}}, {Terms: []*Term{b}}}}
+	default:
+		e = &Expression{Alternatives: []*Sequence{{Terms: []*Term{a, b}}, {Terms: []*Term{c}}}}
+	}
+	tree := &EBNF{Productions: []*Production{{Production: "Root", Expression: e}}}
+	back, err := ParseString(tree.String())
+	vAssert(err == nil, "C14: printed EBNF with escaped literals does not parse")
+	vAssert(len(back.Productions) == 1 && back.Productions[0].Production == "Root", "C14: production lost")
+	vhSameExpr(e, back.Productions[0].Expression)
+	vReach("round-trip")
+}
+
 // ---------- whole grammars ----------
 
 var vhLexDef = lexer.MustSimple([]lexer.SimpleRule{{Name: "A", Pattern: "a"}, {Name: "B", Pattern: "b"}, {Name: "C", Pattern: "c"}, {Name: "ws", Pattern: " "}})
@@ -114,6 +142,7 @@ type vgAll struct {
 	NE   string     `( @A? @B? )!`
 	Rec  *vgAll     `( "(" @@ ")" )?`
 	Tl   string     `@"t":A+`
+	Esc  string     `( @"\\" | @"a\\" "\"" | @"\n" )?`
 }
 
 type vgUnionIface interface{ isU() }
@@ -217,7 +246,7 @@ func VH_C14_Grammar_All() {
 	vAssert(neg == 1, "C14: the ~ operator of the grammar is missing from the EBNF")
 	vAssert(pos == 1 && negLA == 1, "C14: a lookahead group of the grammar is missing from the EBNF")
 	vAssert(bang == 1, "C14: the ! modifier of the grammar is missing from the EBNF")
-	vAssert(star == 3 && plus == 1 && quest == 6, "C14: modifiers of the grammar are missing from the EBNF")
+	vAssert(star == 3 && plus == 1 && quest == 7, "C14: modifiers of the grammar are missing from the EBNF")
 	vObserve("ebnf", p.String())
 	vReach("grammar")
 }
